@@ -17,6 +17,7 @@
     eqother                                → Errors.Never
     path <cwd> <lang> <dirs> <module>      → ok <hex> | <Err>
     overlap <cwd> <lang> <dirs> <modules>  → True | False      (NoOverlap)
+    metafile <path:language items> <module> → ok <hex file whose md5 module_meta_factory records> | ValueError
 
   runner ops (state: one world); every one answers `<status>|<reads>|<writes>|<listing>`
     init <appver> <tver> <tmodule> <cwd> <lang> <dirs> <none|true|false>
@@ -27,7 +28,7 @@
     setdirs <dirs>
     setforce <none|true|false>
     put <module> <content>                 (foreign content at the module's output path)
-    setver <app|py2cpp> <version>          (Versions.app / Versions.py2cpp as seen by later runs)
+    setver <app|py2cpp> <version>          (Versions.app / Versions.py2cpp as seen by later runs; the model's Op.setVer)
   listing = `hexpath:hexfirstline` of every existing output, sorted by path, joined by `,`.
 
   The JSON *parser* below belongs to the driver, not to the model (the model takes `json.loads` as a parameter); it is tied to
@@ -213,11 +214,9 @@ def hexList (xs : List Str) : String := if xs.isEmpty then "[]" else ",".interca
 /-! ### the world of the runner ops -/
 
 structure St where
-  w : World Str := ⟨[], fun _ => [], fun _ => none, ⟨[], [], none, []⟩, 0⟩
+  w : World Str := ⟨[], fun _ => [], fun _ => none, ⟨[], [], none, []⟩, 0, ⟨[], []⟩, fun _ => none⟩
   imports : List (Str × List Str) := []
   known : List Str := []      -- every path ever written (for the listing)
-  appVersion : Str := []
-  tVersion : Str := []
   tModule : Str := []
 
 partial def closure (imports : List (Str × List Str)) (todo : List Str) (seen : List Str) : List Str :=
@@ -232,8 +231,7 @@ def toyOut (imports : List (Str × List Str)) (src : Str → Str) (m : Str) : Ex
   .ok ("#pragma once\n".toList ++ (closure imports [m] []).flatMap (fun d => d ++ ('=' :: src d) ++ ['\n']))
 
 def St.env (st : St) : Env Str :=
-  { hash := id, md5 := id, loads := loads, out := toyOut st.imports,
-    appVersion := st.appVersion, tVersion := st.tVersion, tModule := st.tModule }
+  { hash := id, md5 := id, loads := loads, out := toyOut st.imports, tModule := st.tModule }
 
 def firstLine (t : Text) : Str := t.takeWhile (· ≠ '\n')
 
@@ -253,7 +251,7 @@ def readsOf (E : Env Str) (w : World Str) : List Str → List Str
     | .error _ => []
     | .ok p => match w.files p with
       | none => readsOf E w ms
-      | some f => match tryFromContent E.loads E.appVersion f.content with
+      | some f => match tryFromContent E.loads w.ver.app f.content with
         | .error _ => [p]
         | .ok _ => p :: readsOf E w ms
 
@@ -322,8 +320,8 @@ def step (st : St) : List String → St × String
   | ["init", av, tv, tm, cwd, lang, dirs, force] =>
     match parseForce force with
     | some f =>
-      let st' : St := { appVersion := unhexD av, tVersion := unhexD tv, tModule := unhexD tm,
-                        w := ⟨[], fun _ => [], fun _ => none, ⟨parseList dirs, unhexD lang, f, unhexD cwd⟩, 0⟩ }
+      let st' : St := { tModule := unhexD tm,
+                        w := ⟨[], fun _ => [], fun _ => none, ⟨parseList dirs, unhexD lang, f, unhexD cwd⟩, 0, ⟨unhexD av, unhexD tv⟩, fun _ => none⟩ }
       (st', obs st' "ok" [] [])
     | none => (st, "bad-op")
   | ["mod", m, tok, imps] =>
@@ -359,12 +357,20 @@ def step (st : St) : List String → St × String
   | ["setver", which, v] =>
     -- the application / transpiler version compiled into the program changes (Versions.app / Versions.py2cpp) for later runs
     if which == "app" then
-      let st' := { st with appVersion := unhexD v }
+      let st' := { st with w := Tranp.Runner.step st.env st.w (.setVer { st.w.ver with app := unhexD v }) }
       (st', obs st' "ok" [] [])
     else if which == "py2cpp" then
-      let st' := { st with tVersion := unhexD v }
+      let st' := { st with w := Tranp.Runner.step st.env st.w (.setVer { st.w.ver with py2cpp := unhexD v }) }
       (st', obs st' "ok" [] [])
     else (st, "bad-op")
+  | ["metafile", mps, m] =>
+    -- which file module_meta_factory hashes: <mps> = list of `path:language` items
+    let items := (parseList mps).map fun it => match Str.splitOn ':' it with
+      | [a, b] => (⟨a, b⟩ : ModPath)
+      | _ => ⟨it, []⟩
+    match metaFile items (unhexD m) with
+    | .ok f => (st, s!"ok {Str.hex f}")
+    | .error e => (st, e.toString)
   | ["setforce", force] =>
     match parseForce force with
     | some f =>
